@@ -736,6 +736,58 @@ pub(crate) fn run(
     }
 }
 
+/// Thin public wrapper over the VM's private backtracking state, so that verification
+/// harnesses can drive operation sequences (create/abandon alternative, write/read slot,
+/// enter/commit atomic) from outside the crate. Only compiled with `--cfg fancy_regex_verif`.
+#[cfg(fancy_regex_verif)]
+#[doc(hidden)]
+pub mod verif_hooks {
+    use super::State;
+
+    /// The VM's backtracking state.
+    #[allow(missing_debug_implementations)]
+    pub struct VState(State);
+
+    impl VState {
+        /// New state with `n_saves` slots.
+        pub fn new(n_saves: usize, max_stack: usize) -> VState {
+            VState(State::new(n_saves, max_stack, 0))
+        }
+        /// Create an alternative; false on stack overflow.
+        pub fn push(&mut self, pc: usize, ix: usize) -> bool {
+            self.0.push(pc, ix).is_ok()
+        }
+        /// Abandon the current alternative, returning (pc, ix) of the resumed one.
+        pub fn pop(&mut self) -> (usize, usize) {
+            self.0.pop()
+        }
+        /// Write a slot.
+        pub fn save(&mut self, slot: usize, val: usize) {
+            self.0.save(slot, val)
+        }
+        /// Read a slot.
+        pub fn get(&self, slot: usize) -> usize {
+            self.0.get(slot)
+        }
+        /// Push onto the auxiliary stack.
+        pub fn stack_push(&mut self, val: usize) {
+            self.0.stack_push(val)
+        }
+        /// Pop from the auxiliary stack.
+        pub fn stack_pop(&mut self) -> usize {
+            self.0.stack_pop()
+        }
+        /// Number of alternatives.
+        pub fn backtrack_count(&self) -> usize {
+            self.0.backtrack_count()
+        }
+        /// Commit: discard alternatives created since `count`.
+        pub fn backtrack_cut(&mut self, count: usize) {
+            self.0.backtrack_cut(count)
+        }
+    }
+}
+
 #[cfg(test)]
 mod tests {
     use super::*;
